@@ -1263,13 +1263,18 @@ def r9(ctx):
             if not pol:
                 op = {ast.Gt: ast.LtE, ast.GtE: ast.Lt, ast.Lt: ast.GtE, ast.LtE: ast.Gt}.get(op)
             sign = 1 if op in (ast.Gt, ast.GtE) else -1 if op in (ast.Lt, ast.LtE) else 0
-            want_a = {n: sign, "self._pos": sign, "self._len": -sign}
-            want_b = {n: sign, "len()": -sign}
             core_ = {k: c for k, c in diff.items() if k != 1}
-            if sign and core_ in (want_a, want_b):
+            # requested + <cursor attribute this method advances> - <length attribute it never writes> (any names),
+            # or requested - len(self)
+            cursors = {st.path for st in stores(rb.node, into_defs=False) if st.path.startswith("self.") and st.kind in ("assign", "augassign")}
+            pos_terms = [k for k, c in core_.items() if c == sign and k != n and str(k).startswith("self.") and k in cursors]
+            neg_terms = [k for k, c in core_.items() if c == -sign and ((str(k).startswith("self.") and k not in cursors) or k == "len()")]
+            shape_a = core_.get(n) == sign and len(core_) == 3 and len(pos_terms) == 1 and len(neg_terms) == 1 and neg_terms[0] != "len()"
+            shape_b = core_ == {n: sign, "len()": -sign}
+            if sign and (shape_a or shape_b):
                 found.append(e)
     ctx.ob("C02.R9", "BufferReader.read_bytes: refuses when position + requested exceeds the length", len(found) >= 1, rb.where,
-           "no raise is conditioned on `self._pos + <requested> > self._len` over the unclamped values (a clamped / "
+           "no raise is conditioned on `<cursor> + <requested> > <length>` over the unclamped values (a clamped / "
            "min()-ed end position makes the check vacuous): short reads succeed silently")
 
 
